@@ -319,6 +319,11 @@ var (
 
 var keyAlphabet = []string{"a", "b", "", "ab", "ba", "aa", strings.Repeat("k", 64), strings.Repeat("L", 63) + "-long-key-beyond-64-bytes", "c", "abc", "k\\u0041", "\\n", "é", "a b"}
 
+// lookalikeStrings: string contents that look like JSON text themselves (numbers with exponents, atoms, structural
+// characters, separators). Anything that post-processes marshalled or serialized output by scanning the bytes instead
+// of tracking tokens is confused by them.
+var lookalikeStrings = []string{"e-0", "stage-0", "1e-07", "1.5e-09", "e+0", "E-0", "-0", "0e-0x", "true", "null", "false", "]", "}", "[{", ",", ":", "\\n", "1,2", "{\\\"a\\\":1}", "e-", "e-00", "10e-05,", "\\u0065-0"}
+
 type docGen struct {
 	t      *rapid.T
 	p      docProfile
@@ -372,6 +377,10 @@ func (g *docGen) key(used map[string]bool) (src, out []byte) {
 		}
 	} else {
 		src, out = genString(g.t, g.p.RichStr && rapid.IntRange(0, 3).Draw(g.t, "richkey") == 0)
+		if rapid.IntRange(0, 11).Draw(g.t, "lookalikekey") == 0 {
+			src = []byte(lookalikeStrings[rapid.IntRange(0, len(lookalikeStrings)-1).Draw(g.t, "lk")])
+			out = mustDecode(src)
+		}
 		if g.p.UniqueKey && used[string(out)] {
 			src = []byte("u" + strconv.Itoa(len(used)))
 			out = src
@@ -435,6 +444,10 @@ func (g *docGen) value(depth int) *rj.Node {
 		if g.p.KeyAlpha > 0 && rapid.IntRange(0, 2).Draw(g.t, "strfromkeys") == 0 {
 			// string values equal to keys and to each other (a serializer stores equal strings once)
 			src := []byte(keyAlphabet[rapid.IntRange(0, g.p.KeyAlpha-1).Draw(g.t, "skey")])
+			return &rj.Node{K: rj.Str, S: mustDecode(src), Src: src}
+		}
+		if rapid.IntRange(0, 7).Draw(g.t, "lookalike") == 0 {
+			src := []byte(lookalikeStrings[rapid.IntRange(0, len(lookalikeStrings)-1).Draw(g.t, "ls")])
 			return &rj.Node{K: rj.Str, S: mustDecode(src), Src: src}
 		}
 		s, o := genString(g.t, g.p.RichStr)
